@@ -8,6 +8,7 @@ import (
 	"errors"
 	"fmt"
 	"os"
+	"path/filepath"
 	"runtime"
 	"sort"
 	"strconv"
@@ -24,6 +25,7 @@ import (
 	"github.com/cosmos/cosmos-sdk/crypto/keyring"
 	sdk "github.com/cosmos/cosmos-sdk/types"
 
+	"github.com/bandprotocol/chain/v3/pkg/filecache"
 	"github.com/bandprotocol/chain/v3/pkg/obi"
 	"github.com/bandprotocol/chain/v3/testing/testdata"
 	oracletypes "github.com/bandprotocol/chain/v3/x/oracle/types"
@@ -527,6 +529,11 @@ func (se *session) setupDaemon() {
 		wish := se.s.DS[d-1]
 		if wish.Cached {
 			se.yc.VerifFileCache().AddFile([]byte(content))
+		} else if wish.Damaged {
+			// a file cut short (e.g. by a crash during the write) under the hash of the full content
+			if err := os.WriteFile(filepath.Join(dir, filecache.GetFilename([]byte(content))), []byte(content)[:len(content)/2], 0o600); err != nil {
+				panic(err)
+			}
 		}
 		se.cl.reqKeys[string(oracletypes.DataSourceStoreKey(oracletypes.DataSourceID(id)))] = fmt.Sprintf("ds/%d", id)
 		se.cl.budget[fmt.Sprintf("ds/%d", id)] = wish.FHash
@@ -575,7 +582,7 @@ func (se *session) constants() tf.M {
 	}
 	ds := []tf.M{}
 	for _, d := range se.s.DS {
-		ds = append(ds, tf.M{"len": d.Len, "cached": d.Cached, "fHash": d.FHash, "fData": d.FData})
+		ds = append(ds, tf.M{"len": d.Len, "cached": d.Cached, "dmg": d.Damaged, "fHash": d.FHash, "fData": d.FData})
 	}
 	return tf.M{"maxTry": se.s.MaxTry, "reqs": reqs, "ds": ds, "me": se.me.Name, "appErr": se.s.AppErr}
 }
